@@ -8,6 +8,7 @@ CONSTANTS
   DevD6 = FALSE
   DevD7 = FALSE
   DevD14 = FALSE
+  DevGiveUp = FALSE
 CONSTRAINT HW
 POSTCONDITION Accepted
 CHECK_DEADLOCK FALSE
